@@ -1463,3 +1463,22 @@ End Demo.
 Lemma truncate_spec (limit : nat) (t : text) :
   ((length t <= limit)%nat -> truncate limit t = t) /\ ((limit < length t)%nat -> truncate limit t = firstn limit t).
 Proof. split; [apply truncate_short|apply truncate_long]. Qed.
+
+Lemma timeout_value_statement :
+  forall (value : Type) (eval_tpl : text -> value * (bool * nat)) (to_xtext : value -> option text)
+         (registered : test_id -> bool) (test : test_id -> value -> list value -> test_result value)
+         (lc : lctx) (max_result_chars : nat)
+         (site : call_site) (flow_nodes : list uuid) (nd : node) (r : router) (d : draw) (times : list text)
+         (prev : option result) (u : uuid) (c : category),
+  n_router nd = Some r ->
+  b_timeout (router_base r) = Some u -> category_with (router_base r) u c -> c_exit c <> no_uuid ->
+  b_result_name (router_base r) <> [] ->
+  scan_timeouts times = hd zero_time_text times
+  /\ vo_saved (visit value eval_tpl to_xtext registered test lc max_result_chars site flow_nodes nd true d
+                     (scan_timeouts times) prev)
+     = Some (result_for lc max_result_chars (router_base r) c (hd zero_time_text times) [] None).
+Proof.
+  intros value eval_tpl to_xtext registered test lc max_result_chars site flow_nodes nd r d times prev u c
+         Hr Ht Hcat Hex Hn.
+  split; [apply scan_timeouts_first|]. eapply timeout_value_spec; eassumption.
+Qed.
